@@ -411,3 +411,26 @@ def zero_some_h(rng, pr):
         pr.pl["margin_s"] = cone.margin(snew, d)
     pr.pl["d"] = float(-cone.sdot(h, pr.pl["z"], d) - pr.b @ pr.pl["y"])
     return len(pos)
+
+
+def homogenize_equalities(pr):
+    """Translate x = u + xhat with A xhat = b: the same problem with homogeneous equality constraints A u = 0 (b exactly
+    zero), h := h - G xhat.  Planted points, rays and certificates carry over (objective values shift by c'xhat).
+    Returns False if the problem has no equality constraints or is a QP."""
+    if pr.P is not None or pr.A.shape[0] == 0:
+        return False
+    xhat = np.linalg.lstsq(pr.A, pr.b, rcond=None)[0]
+    if float(np.linalg.norm(pr.A @ xhat - pr.b)) > 1e-10 * (1 + float(np.linalg.norm(pr.b))):
+        return False
+    pr.h = pr.h - pr.G @ xhat
+    pr.b = np.zeros_like(pr.b)
+    pl = getattr(pr, "pl", None)
+    if pl:
+        for k in ("x", "x0"):
+            if k in pl:
+                pl[k] = pl[k] - xhat
+        shift = float(pr.c @ xhat)
+        for k in ("p", "d"):
+            if k in pl:
+                pl[k] = pl[k] - shift
+    return True
